@@ -17,7 +17,7 @@ from math import pi
 
 import numpy as np
 
-from vlib import paths
+from vlib import paths, argrep
 paths.setup()
 from vlib.runner import result, HELD, VIOL, SKIP, INCO  # noqa: E402
 from vlib import refmath as rm  # noqa: E402
@@ -280,7 +280,9 @@ def _formula(case, spl, adv, acc):
             lip, dmax = (lip2, dmax2) if hstep == 2 else (lip_first, dmax_first)
             cls.add("%s/history-step%d" % (base, hstep))
         F0 = rs.standard_normal((case["nth"], case["nr"])) if case["nul"] else pg.f_eq(S.r[None, :], v, S.c) * (1 + 0.3 * rs.standard_normal((case["nth"], case["nr"])))
-        got = F0.copy()
+        rep = argrep.kinds(2)[(hstep + case["seed"] // 2) % len(argrep.kinds(2))]
+        got = argrep.view_of(F0, rep)       # the caller's array: fresh C-contiguous, Fortran-ordered, a window / stride / plane of a larger block
+        cls.add("%s/argument-%s" % (base, rep))
         if case["explicit"]:
             S.op.step(got, dt, phis, v)
             sweeps = None
